@@ -30,6 +30,12 @@ Proof.
   - intros H. exists a. split; [assumption|apply addr_eqb_refl].
 Qed.
 
+Lemma firstn_In {A} (x : A) n l : In x (firstn n l) -> In x l.
+Proof.
+  revert l; induction n as [|n IH]; intros [|y r]; cbn [firstn In]; try tauto.
+  intros [E|E]; [now left|right; now apply IH].
+Qed.
+
 Lemma firstn_le_cap {A} (l : list A) : (length (firstn cap l) <= cap)%nat.
 Proof. apply firstn_le_length. Qed.
 
